@@ -7,10 +7,18 @@ from gffutils.exceptions import EmptyInputError
 from gv.model import dbutil
 
 ID = "C14"
-RULE = ("every sequence of length <= n over the line kinds {##directive, ###, bare ##, #comment, #!pragma comment, blank, feature, ##FASTA, >header} "
-        "(plus sequence text after a FASTA marker) x checklines x input form; each execution drives DataIterator (iterated twice), "
-        "create_db(:memory:) and create_db(file)+reopen. Non-trivial = a directive lies after the first checklines+1 features, or "
-        "something follows a FASTA marker, or comments/blanks are interleaved with features")
+RULE = (
+    "One part; shards = input form x checklines x length x first one or two line kinds. Every sequence of length 0..4 (quick) / 0..5 "
+    "(thorough) over 9 line kinds {##directive, ###, bare ##, #comment, #! pragma comment, blank, feature, ##FASTA, >header} (a "
+    "sequence line is appended after a FASTA marker or header) x checklines {0,1,10} x input form {path, from_string}; additionally a "
+    "gzip path with CRLF line ends for lengths 0..3 at checklines 1, and in thorough all sequences of length 6 for path input with "
+    "checklines 0 and 1. Feature lines are written as GTF when length+checklines is odd (not for the gzip form). Each execution drives "
+    "DataIterator (iterated twice, and a third time after a second iterator over another input was created and consumed; each keeps its "
+    "own directives), create_db(:memory:) and create_db(file)+reopen; directives (in order) and printed features are compared with a "
+    "reference classifier written from the statement; create_db must raise EmptyInputError exactly when there is no feature line. "
+    "Non-trivial = a directive lies after the first checklines+1 features, or something follows a FASTA marker/header, or "
+    "comments/blanks occur together with features."
+)
 ASSUMPTIONS = [
     "'###' begins with '##' and is therefore a directive '#', as the statement words it",
     "an input without any feature line makes create_db raise the documented empty-input error; nothing else may raise",
